@@ -127,6 +127,21 @@ TAlloc ==
         /\ taint' = [i \in 1..newLen |-> IF i <= alen THEN taint[i] ELSE 0]
   /\ Same(<<cfg, claunch, launches, fin, epoch, lastFlush, cmds, reqs>>)
 
+\* Driver.Remap / Driver.Distribute on a live buffer: its pages get new physical frames (usually on
+\* other GPUs); the contents are not moved, so the bytes at these virtual addresses are now whatever
+\* the new frames hold (observed through the page table).  From here on every copy must act on the
+\* frames the page table names NOW: a piece sent to the old frame or the old GPU has no page (TSendPiece).
+TMap ==
+  /\ Is("Map") /\ Ev.b \in DOMAIN bufs /\ bufs[Ev.b].live /\ bufs[Ev.b].va = Ev.va /\ bufs[Ev.b].n = Ev.n
+  /\ Len(Ev.init) = Ev.n /\ Running = {}
+  /\ LET ps == Ev.pages
+         new == [p \in PagesOf(ps) |-> LET i == CHOOSE j \in 1..Len(ps) : ps[j][1] = p
+                                       IN [pp |-> ps[i][2], dev |-> ps[i][3]]]
+     IN pt' = new @@ pt
+  /\ arch' = Over(arch, Ev.va, Ev.init) /\ sto' = Over(sto, Ev.va, Ev.init)
+  /\ taint' = Over(taint, Ev.va, [i \in 1..Ev.n |-> 0])
+  /\ Same(<<cfg, bufs, claunch, launches, fin, epoch, lastFlush, cmds, reqs, alen>>)
+
 TFree ==
   /\ Is("Free") /\ Ev.b \in DOMAIN bufs /\ bufs[Ev.b].live
   /\ bufs' = [bufs EXCEPT ![Ev.b].live = FALSE]
@@ -168,7 +183,10 @@ TSendFlush ==
 
 \* where a piece sits in its command
 PageOfPP(pp) == CHOOSE p \in DOMAIN pt : pt[p].pp = pp
-PieceOff(c) == IF cfg.pt = 1 THEN PageOfPP(Ev.pp) + Ev.po - cmds[c].va ELSE cmds[c].nsent
+\* (a physical page no virtual page is mapped to - e.g. a frame a Remap has released - has no offset: -1)
+PieceOff(c) == IF cfg.pt = 1
+               THEN IF \E p \in DOMAIN pt : pt[p].pp = Ev.pp THEN PageOfPP(Ev.pp) + Ev.po - cmds[c].va ELSE -1
+               ELSE cmds[c].nsent
 PieceOK(c, off) ==
   /\ Ev.n >= 1 /\ Ev.po >= 0 /\ Ev.po + Ev.n <= cfg.page           \* stays inside one page
   /\ off >= 0 /\ off + Ev.n <= cmds[c].n                           \* inside the requested range
@@ -309,7 +327,7 @@ TPanicFreed ==
   /\ Deviation("remove_freed_buffers_panic")
   /\ Same(<<cfg, pt, bufs, claunch, launches, fin, epoch, lastFlush, cmds, reqs, arch, sto, alen, taint>>)
 
-TNext == \/ TReset \/ TCtx \/ TAlloc \/ TFree \/ TStart
+TNext == \/ TReset \/ TCtx \/ TAlloc \/ TMap \/ TFree \/ TStart
          \/ TSendLaunch \/ TSendFlush \/ TSendPiece \/ TRsp \/ TTake \/ TDone
          \/ TAccW \/ TAccR \/ TSto \/ TQuiesce \/ TQuiesceHung \/ TPanicFreed
 
